@@ -587,6 +587,8 @@ def rule_uv(chk, prog):
 
 
 def run(chk, prog, tier):
+  from rules import c01 as _c01m
+  _c01m.rule_metric(chk, prog, rule='C02.9-metric-factors')
   from rules import c01 as _c01
   _c01.rule_shared_state(chk, prog, rule='C02.7-cached-arrays-never-updated-in-place')
   rule_recurrence(chk, prog)
